@@ -434,6 +434,30 @@ def history_workspace(ws: str, with_table: bool) -> Workspace:
     return Workspace(ws, with_table=with_table, spec_fn=pathfs.acyclic_spec, post_build=_shadow)
 
 
+def _plant_parquet(wsp: Workspace) -> None:
+    """Table workspaces: the outside target of the file link data/imported.parquet becomes a VALID parquet file with the
+    table's own schema (a copy of the fixture table's data file), so that a read through the link really succeeds and
+    returns foreign rows instead of failing on the file format."""
+    dst = os.path.join(wsp.ws, "out", "pq", "leak.parquet")
+    if not wsp.with_table or not os.path.isdir(os.path.dirname(dst)):
+        return
+    d = os.path.join(wsp.root, "data")
+    for n in sorted(os.listdir(d)):
+        p = os.path.join(d, n)
+        if os.path.isfile(p) and not os.path.islink(p) and os.path.getsize(p) > 12:
+            with open(p, "rb") as f:
+                body = f.read()
+            if body[:4] == b"PAR1" and body[-4:] == b"PAR1":
+                with open(dst, "wb") as f:
+                    f.write(body)
+                return
+
+
+def session_workspace(ws: str, with_table: bool) -> Workspace:
+    """The file-link arrangement (pathfs.filelink_spec): nothing changes between the steps of a session."""
+    return Workspace(ws, with_table=with_table, spec_fn=pathfs.filelink_spec, post_build=_plant_parquet)
+
+
 def _swap_for_link(path: str, target: str) -> None:
     if os.path.lexists(path):
         os.rename(path, path + ".moved-aside")
@@ -465,6 +489,11 @@ def mutate(wsp: Workspace, name: str) -> None:
         os.makedirs(p)
         with open(os.path.join(p, "secret.txt"), "wb") as f:
             f.write(b"NOW-INSIDE")
+    elif name.startswith("remove:"):
+        # a file inside the root disappears (e.g. the version hint: the next refresh LISTS metadata/ to recover)
+        p = os.path.join(r, name[len("remove:"):])
+        if os.path.lexists(p):
+            os.remove(p)
     else:
         raise ValueError(name)
     wsp.rebaseline()
@@ -490,8 +519,24 @@ def table_ops() -> Dict[str, Callable[[Any], Any]]:
         "row_count": lambda t: t.row_count(),
         "append_records": lambda t: t.append_records([{"k": 9}]),
         "garbage_collect": lambda t: t.garbage_collect(grace_period_ms=0),
+        "garbage_collect_default": lambda t: t.garbage_collect(),          # default grace period: young files survive
         "refresh": lambda t: t.refresh(),
     }
+
+
+def table_path_ops() -> Dict[str, Callable[[Any, str], Any]]:
+    """Operations of one long-lived Table object that take a path string."""
+    def append_files(t: Any, p: str) -> Any:
+        from datashard.data_structures import DataFile, FileFormat
+        tx = t.new_transaction()
+        tx.begin()
+        try:
+            tx.append_files([DataFile(file_path=p, file_format=FileFormat.PARQUET, partition_values={}, record_count=1, file_size_in_bytes=1)])
+            return tx.commit()
+        finally:
+            if tx.is_active():
+                tx.rollback()
+    return {"append_files": append_files}
 
 
 def make_handle(kind: str, base: str) -> Any:
@@ -507,6 +552,17 @@ def make_handle(kind: str, base: str) -> Any:
 
 
 def handle_call(kind: str, handle: Any, entry: str, p: str) -> Callable[[], Any]:
+    if entry.startswith("storage."):
+        # the handle's own storage object (a Table / DataFileManager shares ONE backend with everything it does)
+        st = handle if kind == "storage" else handle.storage
+        fs = storage_entry_points()[entry[len("storage."):]]
+        return lambda: fs(st, p)
+    if entry.startswith("dfm.") and kind == "table":
+        fd = dfm_entry_points()[entry[len("dfm."):]]
+        return lambda: fd(handle.file_manager.data_file_manager, p)
+    if kind == "table" and entry in table_path_ops():
+        fp = table_path_ops()[entry]
+        return lambda: fp(handle, p)
     if kind == "storage":
         f = storage_entry_points()[entry]
         return lambda: f(handle, p)
@@ -537,8 +593,9 @@ def run_history(wsp: Workspace, judge: Judge, audit: Audit, kind: str, base_kind
             _c, entry, p = st
             p = p.replace("<ws>", wsp.ws)
             o, prs = _run_case(wsp, judge, audit, f"history:{kind}:{entry}", handle_call(kind, handle, entry, p), p, base_kind,
-                               absolute_capable=(kind != "storage"), restore=False)
-            if kind == "table" or entry in ("delete_file",):
+                               absolute_capable=(kind != "storage" and not entry.startswith("storage.")), restore=False)
+            if (kind == "table" and p == "-") or entry.endswith("delete_file"):
+                # table operations without a string have nothing to reject; the collector / rollback treat paths best-effort
                 prs = [pr for pr in prs if pr["rule"] != "reject"]
             outcomes.append(o)
             for pr in prs:
